@@ -240,7 +240,13 @@ func (s *SpokFile) run(stream iostream.IOStream, runner shell.Runner, force bool
 		// First, any glob file dependencies need their expanded files retrieving from
 		// the s.Globs map of pattern -> slice
 		for _, pattern := range taskToRun.GlobDependencies {
-			globs := s.Globs[pattern]
+			// The pattern is expanded now, not once before the run began: a task that ran earlier
+			// in this invocation may have created (or removed) files it matches
+			globs, err := expandGlob(s.Dir, pattern)
+			if err != nil {
+				return nil, err
+			}
+			s.Globs[pattern] = globs
 			toHash = append(toHash, globs...)
 			s.logger.Debug("Task %s glob dependency pattern %q expanded to %d files", taskToRun.Name, pattern, len(globs))
 		}
